@@ -63,8 +63,8 @@ CLAIMED = {
    note="Outside: arbitrary bytes through encoding/json / YAML, hangs, the CLI process, error keys and JSON serialisation of errors (reflection, I/O). Defects found and fixed: ececb16 (empty signature / nil header), 30b8846 (undefined currency), 1c33f8c (c14n empty input), 9131962, fea0aa2 and 57ce5ad (addon validators on an invoice without tax object).",
    ref="DESIGN.md 5 (C14)"),
  "C01": dict(
-   text="Unit layer of the document calculation, bounded model checking with z3: from an arbitrary symbolic pre-state each step of the real code - calculateLine (price x quantity, percentage discount, percentage / rate-times-quantity charge), calculateDiscounts/Charges and their sums (with and without explicit base), advances, advance total and percentage due dates, foreign-currency item price conversion (exchange rate or alternative price) - yields exactly the half-away-from-zero rounding of the exact product / percentage at the documented working precision (>= currency+2 under 'precise', currency under 'currency'), fixed amounts are only raised, never rounded, before use, and line totals are sum - discounts + charges. The accounting identities of the whole pipeline are decided under the currency rule in C03, the fixpoint in C04.",
-   note="Assumes go/ssa faithful, z3 sound, C05 summaries (lemmas re-run first). Outside: comparison of the whole pipeline with a reference under 'precise' and the 'less than a full minor unit' bound; sub-line breakdowns; regime-default rule selection. Known finding (open): double rounding under the currency rule when the price has more decimals than the currency and the quantity has decimals.",
+   text="Unit layer of the document calculation, bounded model checking with z3: from an arbitrary symbolic pre-state each step of the real code - calculateLine (price x quantity, percentage discount, percentage / rate-times-quantity charge), calculateDiscounts/Charges and their sums (with and without explicit base), advances, advance total and percentage due dates, foreign-currency item price conversion (exchange rate or alternative price) - yields exactly the half-away-from-zero rounding of the exact product / percentage at the documented working precision (>= currency+2 under 'precise', currency under 'currency'), fixed amounts are only raised, never rounded, before use, and line totals are sum - discounts + charges. A pipeline stage compares the real bill.calculate under 'precise' with exact rational arithmetic on 1-2 line skeletons (symbolic prices, optional line and document percentage discounts, VAT): every presented total is less than one minor unit from the unrounded exact value. The accounting identities of the whole pipeline under the currency rule are decided in C03, the fixpoint in C04.",
+   note="Assumes go/ssa faithful, z3 sound, C05 summaries (lemmas re-run first). Outside: pipeline skeletons with charges, advances, several tax rates or more than two lines under 'precise'; sub-line breakdowns; regime-default rule selection. Known finding (open): double rounding under the currency rule when the price has more decimals than the currency and the quantity has decimals.",
    ref="DESIGN.md 5 (C01)"),
  "C15": dict(
    text="Only the sufficient condition the property's own mechanism names - shared definitions are never written after initialisation - is decided: the merge helpers (TagSet.Merge, CorrectionDefinition.Merge, Extensions.Merge, ScenarioSet.Merge) are executed symbolically on frozen operands over every combination of list length, spare capacity, duplicates and flags (any store into an operand, including its slices' spare capacity, is an event; aliasing is asserted through two merges from one receiver), and Invoice.supportedTags / correctionDef / scenarioSummary are run on the real regime and addon definitions of four regimes with those definitions frozen. Counterexamples are confirmed natively by comparing deep dumps of the operands.",
